@@ -269,6 +269,18 @@ class RpcServer(PduPeer):
         self.send_response(conn, st, val, pdu["ctx_id"], pdu["call_id"], seal=a is not None)
 
     def send_response(self, conn, st, stub: bytes, ctx_id: int, call_id: int, seal: bool) -> None:
+        self._send_response(conn, st, stub, ctx_id, call_id, seal)
+        after = self.knobs.get("after_response")
+        if after == "rst":
+            # the server answers completely and aborts the connection at once (service shutting down, idle reaper, load balancer):
+            # the reset is there before the client gets to close its side
+            conn.world.stats["rst_after_response"] += 1
+            conn.peer_rst()
+        elif after == "eof":
+            conn.world.stats["eof_after_response"] += 1
+            conn.peer_eof()
+
+    def _send_response(self, conn, st, stub: bytes, ctx_id: int, call_id: int, seal: bool) -> None:
         if not seal:
             hint = self.knobs.get("alloc_hint_unsealed")  # advisory field: None = len(stub); int k = len(stub) - k (at least 1); "zero"
             if hint is None:
